@@ -11,7 +11,7 @@ import (
 )
 
 func init() {
-	register("C04", "Decides the structure that confines a canary to status.canary.nodes: (R1) the role of a replica set is `canary` only with Status.Canary != nil ∧ Status.Canary.ReplicaSet == name ∧ Status.ActiveReplicaSet != name and `active` only with ActiveReplicaSet == name; every role the role function can return dispatches to a strategy function, and a strategy function that plans pod creations/deletions is called only under role active or canary; (R2) on every path of the parameter builder on which the replica set is active while a canary is recorded, the mapping function receives Status.Canary.Nodes as its ignore list, and the mapping function creates no per-node entry and cleans up no pod for an ignored node; (R3) the active planner never sees canary nodes (by R2 on all paths, or by a removal loop over Parameters.CanaryNodes that dominates every other use of the per-node map); (R4) in the canary role every creation candidate is NodeByName[n] for n ranging over Parameters.CanaryNodes, Parameters.CanaryNodes is Status.Canary.Nodes and the node index maps a name to the node of that name; (R5) the selection loop adds a new node only while len(list) < resolved replicas and leaves the loop or re-checks the bound after every addition; (R6) the canary label is added only to the pod of a canary node whose replica-set label names this replica set, and removed only from pods listed with {canary label, replica-set label == this replica set} by a function that runs in the active role.", runC04)
+	register("C04", "Decides the structure that confines a canary to status.canary.nodes: (R1) the role of a replica set is `canary` only with Status.Canary != nil ∧ Status.Canary.ReplicaSet == name ∧ Status.ActiveReplicaSet != name and `active` only with ActiveReplicaSet == name; every role the role function can return dispatches to a strategy function, and a strategy function that plans pod creations/deletions is called only under role active or canary; (R2) on every path of the parameter builder on which the replica set is active while a canary is recorded, the mapping function receives Status.Canary.Nodes as its ignore list, and the mapping function creates no per-node entry and cleans up no pod for an ignored node; (R3) the active planner never sees canary nodes (by R2 on all paths, or by a removal loop over Parameters.CanaryNodes that dominates every other use of the per-node map); (R4) in the canary role every creation candidate is NodeByName[n] for n ranging over Parameters.CanaryNodes, Parameters.CanaryNodes is Status.Canary.Nodes and the node index maps a name to the node of that name; (R5) the selection loop adds a new node only while len(list) < resolved replicas and leaves the loop or re-checks the bound after every addition; (R7) the bound of R5 is the same number everywhere: every resolution of Strategy.Canary.Replicas reachable from the ExtendedDaemonSet reconciler rounds up and uses Status.Desired of the same reconciled ExtendedDaemonSet as total; (R6) the canary label is added only to the pod of a canary node whose replica-set label names this replica set, and removed only from pods listed with {canary label, replica-set label == this replica set} by a function that runs in the active role.", runC04)
 }
 
 type c04Ctx struct {
@@ -32,12 +32,14 @@ func runC04(r *Run) {
 	r.RuleDoc("C04.R3", "canary nodes never reach the active planner (mapping hides them on all paths, or a dominating removal loop)")
 	r.RuleDoc("C04.R4", "canary role: creation candidates are NodeByName[n], n ∈ Parameters.CanaryNodes == Status.Canary.Nodes")
 	r.RuleDoc("C04.R5", "node selection never adds a new node at or beyond the resolved replicas")
+	r.RuleDoc("C04.R7", "every resolution of Strategy.Canary.Replicas (the bound of R5 and the caller's count test) rounds up and uses Status.Desired of the same ExtendedDaemonSet")
 	r.RuleDoc("C04.R6", "canary label added only to this replica set's pod on a canary node; removed only from pods listed by {canary label, this replica set} in the active role")
 	r.Floor("C04.R1", 8)
 	r.Floor("C04.R2", 4)
 	r.Floor("C04.R3", 1)
 	r.Floor("C04.R4", 3)
 	r.Floor("C04.R5", 2)
+	r.Floor("C04.R7", 4)
 	r.Floor("C04.R6", 4)
 	r.NotCovered("both roles syncing against one store in any order across role changes (a second template change while a canary runs, status read from a stale cache); deletions issued by the canary replica set; that status.canary.nodes itself is valid (C15); namespace scoping of the lists (C12)")
 
@@ -73,7 +75,7 @@ func runC04(r *Run) {
 	c04Ignore(r, c)
 	c04Removal(r, c)
 	c04CanaryCandidates(r, c)
-	c15Cap(r, "C04.R5")
+	c15Cap(r, "C04.R5", "C04.R7")
 	c04Labels(r, c)
 }
 
